@@ -459,7 +459,7 @@ def c35_replay(ctx, idx, beh):
         elif act == "Build":
             builds += 1
             rc, outp, started, _ = repo.plz(["build", LABEL], threads=2)
-            trace.append("build -> rc=%d ran=%s (spec: %s)" % (rc, started, st["expect"]))
+            trace.append("build -> rc=%d ran=%s (spec: %s; model: %s/%s)" % (rc, started, st["expect"], st["algo"], st["how"]))
             detail = dict(behaviour=beh, step=si, trace=list(trace), output=outp[-1200:])
             gen = os.path.join(repo.root, "plz-out", "gen", PKG)
             want = {OUT_PATHS[shape][l["file"]]: leaf_bytes(l).decode() for l in st["files"]}
